@@ -123,6 +123,15 @@ theorem chooseT1_contract (c095 c1001 t0 h tMax : K) (hh : 0 < h) (hm : t0 < tMa
       linarith
     · exact ⟨hm, fun _ => le_refl _⟩
 
+/-- the buffer-zone literal extracted from the current source satisfies what `root_estimate_inside` needs, and the
+step-end literals satisfy `0 < 0.95 < 1 ≤ 1.001` (needed by `chooseT1_contract`) -/
+theorem gen_literals_field :
+    (0 : K) < (Gen.bufferFraction.1 : K) / (Gen.bufferFraction.2 : K) ∧
+    2 * ((Gen.bufferFraction.1 : K) / (Gen.bufferFraction.2 : K)) ≤ 1 ∧
+    (1 : K) ≤ (Gen.c1001.1 : K) / (Gen.c1001.2 : K) ∧ (Gen.c095.1 : K) / (Gen.c095.2 : K) < 1 := by
+  simp only [Gen.bufferFraction, Gen.c1001, Gen.c095]
+  norm_num
+
 /-! ## `findEventCandidates` -/
 
 variable (tenth inf accTs : K) (infos : Nat → TrigInfo K) (tLow : K) (eLow : Nat → K) (tHigh : K) (eHigh : Nat → K)
